@@ -272,4 +272,33 @@ def applyReqs : TState → List Cmd → Option TState
     | none => none
     | some t' => applyReqs t' cs
 
+/-! ## several connections (one per replay worker) -/
+
+/-- the target with several client connections: every connection has selected its own
+    database, the keyspaces are shared -/
+structure MState where
+  cur : Nat → Int := fun _ => 0
+  dbs : Int → Keyspace := fun _ => []
+
+instance : Inhabited MState := ⟨{}⟩
+
+/-- the target as connection `j` sees it -/
+def MState.conn (m : MState) (j : Nat) : TState := { cur := m.cur j, dbs := m.dbs }
+
+/-- … and after connection `j` has left it as `t` -/
+def MState.put (m : MState) (j : Nat) (t : TState) : MState :=
+  { cur := fun i => if i = j then t.cur else m.cur i, dbs := t.dbs }
+
+/-- one request of connection `p.1` (requests are atomic on the server) -/
+def applyTagged (m : MState) (p : Nat × Cmd) : Option MState :=
+  (applyReq (m.conn p.1) p.2).map (m.put p.1)
+
+/-- a schedule: the requests of all connections in the order the server executes them -/
+def applySched : MState → List (Nat × Cmd) → Option MState
+  | m, [] => some m
+  | m, p :: ps =>
+    match applyTagged m p with
+    | none => none
+    | some m' => applySched m' ps
+
 end GunYu.RedisSem
